@@ -446,10 +446,13 @@ class MsgpackSerializer(SerializerBase):
         return msgpack.packb(data, use_bin_type=True, default=self.default)
 
     def loadsCall(self, data):
-        return msgpack.unpackb(self._convertToBytes(data), raw=False, object_hook=self.object_hook, ext_hook=self.ext_hook)
+        return self.loads(data)
 
     def loads(self, data):
-        return msgpack.unpackb(self._convertToBytes(data), raw=False, object_hook=self.object_hook, ext_hook=self.ext_hook)
+        # Classes are recreated top-down after unpacking, like the other serializers do, and not by means of
+        # an object_hook: that works bottom-up, and so would hand already recreated objects (such as a Proxy)
+        # to the code that recreates the enclosing class, which iterates over them or passes them to constructors.
+        return self.recreate_classes(msgpack.unpackb(self._convertToBytes(data), raw=False, ext_hook=self.ext_hook))
 
     def default(self, obj):
         replacer = self.__type_replacements.get(type(obj), None)
